@@ -13,11 +13,27 @@ import (
 func vmapLine(t []string) string {
 	m := &ds.ValueMap{}
 	var outs []string
+	str := func(v *ds.VMValue) string {
+		if v == nil {
+			return "NIL"
+		}
+		return v.ToString()
+	}
+	val := func(tok string) (*ds.VMValue, bool) {
+		if tok == "nil" {
+			return nil, true // a nil pointer is a legal value of the map
+		}
+		n, ok := atoi(tok)
+		if !ok {
+			return nil, false
+		}
+		return ds.NewIntVal(ds.IntType(n)), true
+	}
 	show := func(v *ds.VMValue, ok bool) string {
 		if !ok {
 			return "none"
 		}
-		return "v=" + v.ToString()
+		return "v=" + str(v)
 	}
 	for _, op := range t[1:] {
 		f := strings.Split(op, ":")
@@ -27,19 +43,19 @@ func vmapLine(t []string) string {
 			v, ok := m.Load(f[1])
 			ret = show(v, ok)
 		case f[0] == "S" && len(f) == 3:
-			n, ok := atoi(f[2])
+			v, ok := val(f[2])
 			if !ok {
 				return "bad-op"
 			}
-			m.Store(f[1], ds.NewIntVal(ds.IntType(n)))
+			m.Store(f[1], v)
 			ret = "-"
 		case f[0] == "O" && len(f) == 3:
-			n, ok := atoi(f[2])
+			nv, ok := val(f[2])
 			if !ok {
 				return "bad-op"
 			}
-			v, loaded := m.LoadOrStore(f[1], ds.NewIntVal(ds.IntType(n)))
-			ret = fmt.Sprintf("los=%s,%v", v.ToString(), loaded)
+			v, loaded := m.LoadOrStore(f[1], nv)
+			ret = fmt.Sprintf("los=%s,%v", str(v), loaded)
 		case f[0] == "D" && len(f) == 2:
 			v, ok := m.LoadAndDelete(f[1])
 			ret = show(v, ok)
@@ -52,7 +68,7 @@ func vmapLine(t []string) string {
 		case f[0] == "R":
 			var ps []string
 			m.Range(func(k string, v *ds.VMValue) bool {
-				ps = append(ps, fmt.Sprintf("%x=%s", k, v.ToString()))
+				ps = append(ps, fmt.Sprintf("%x=%s", k, str(v)))
 				return true
 			})
 			sort.Strings(ps)
